@@ -60,6 +60,4 @@ pub open spec fn enc_z64_central(iu: bool, ic: bool, ih: bool, usz: u64, csz: u6
 }
 pub open spec fn sat32(v: u64) -> u32 { if v >= U32MAX { 0xFFFF_FFFFu32 } else { v as u32 } }
 
-// 4.4.6 MS-DOS date and time
-pub open spec fn dos_time(h: u8, m: u8, s: u8) -> u16 { ((s as u16) >> 1) | ((m as u16) << 5) | ((h as u16) << 11) }
-pub open spec fn dos_date(y: u16, m: u8, d: u8) -> u16 { (d as u16) | ((m as u16) << 5) | (((y - 1980) as u16) << 9) }
+// 4.4.6 MS-DOS date and time: spec/dos_datetime.rs (included next to this file)
